@@ -252,8 +252,22 @@ func liftTo(root *ssa.Function, instr ssa.Instruction) ssa.Instruction {
 		if top == root {
 			return nil // inside a closure of root: no position in root's own CFG
 		}
+		if top != f {
+			return nil
+		}
+		// the helper's call in root itself (a helper with several callers has one call per caller), else its unique
+		// call site anywhere
+		var inRoot []ssa.Instruction
+		eachInstr(root, func(i ssa.Instruction) {
+			if ci, ok := i.(ssa.CallInstruction); ok && newHelperCallee(ci) == top {
+				inRoot = append(inRoot, i)
+			}
+		})
+		if len(inRoot) == 1 {
+			return inRoot[0]
+		}
 		site := transparentSite(top)
-		if site == nil || top != f {
+		if site == nil {
 			return nil
 		}
 		instr = site
@@ -281,4 +295,69 @@ func inCodeOf(root, fn *ssa.Function) bool {
 		}
 	}
 	return false
+}
+
+// helperBoolFacts: if atom a says that a call to a new helper returning one bool yielded true (resp. false), the
+// facts common to every return of the helper that can yield that value ("if !m.ready() { return }" guards).
+func helperBoolFacts(a Atom, depth int) []Atom {
+	if (a.Op != "true" && a.Op != "false") || depth > 3 {
+		return nil
+	}
+	call, isC := a.X.(*ssa.Call)
+	if !isC {
+		return nil
+	}
+	g := newHelperCallee(call)
+	if g == nil {
+		return nil
+	}
+	res := g.Signature.Results()
+	if res.Len() != 1 || res.At(0).Type().String() != "bool" {
+		return nil
+	}
+	want := a.Op == "true"
+	key := func(f Atom) string {
+		ys := ""
+		if f.Y != nil {
+			ys = Sym(f.Y)
+		}
+		return f.Op + "|" + Sym(f.X) + "|" + ys
+	}
+	var common []Atom
+	first := true
+	for _, b := range g.Blocks {
+		r, isR := b.Instrs[len(b.Instrs)-1].(*ssa.Return)
+		if !isR {
+			continue
+		}
+		for _, lf := range retLeaves(r.Results[0], b, map[ssa.Value]bool{}) {
+			var fs []Atom
+			if k, isK := lf.val.(*ssa.Const); isK && k.Value != nil {
+				if (k.Value.ExactString() == "true") != want {
+					continue
+				}
+				fs = factsAtDepth(lf.blk, depth+1)
+			} else {
+				fs = append(factsAtDepth(lf.blk, depth+1), condAtom(lf.val, want))
+			}
+			// the edge out of the leaf block towards the phi (if conditional) also holds
+			if first {
+				common = fs
+				first = false
+				continue
+			}
+			have := map[string]bool{}
+			for _, f := range fs {
+				have[key(f)] = true
+			}
+			var keep []Atom
+			for _, f := range common {
+				if have[key(f)] {
+					keep = append(keep, f)
+				}
+			}
+			common = keep
+		}
+	}
+	return common
 }
